@@ -1,6 +1,6 @@
 (* Props/C05.v — property C05, the clauses about lost responses and retries.
    (The fault-in-the-middle-of-a-request clauses are in Proofs/FaultProofs.v.) *)
-From YV Require Import Proto.Server Proto.System Proofs.ProtoProofs Proofs.FaultProofs.
+From YV Require Import Proto.Server Proto.System Proofs.ProtoProofs Proofs.FaultProofs Proofs.SnapshotPull.
 
 (* in every reachable state (lost responses and retries included) the sync of
    an honest client is accepted and acknowledges all of its pending changes *)
@@ -41,3 +41,27 @@ Theorem C05_crash_in_push_window_refuted :
   s_head p8_after_retry = 2%Z.
 Proof. exact crash_in_push_window_duplicates. Qed.
 Print Assumptions C05_crash_in_push_window_refuted.
+
+(* a sync answered with a snapshot - first attempt or retry, with or without further edits made
+   before the retry: the snapshot document is made of the stored log exactly, every client's
+   changes once (server/packs/pushpull.go pullSnapshot after fix 56275d99) *)
+Theorem C05_snapshot_applies_each_change_once : forall th actors es a k m v b kb,
+  let y := srun (init_sys th actors) es in
+  aget (y_clis y) a = Some k -> aget (y_clis y) b = Some kb ->
+  forall s2 r, push_pull (y_srv y) (mk_request a k m v) = (s2, r, ENone) ->
+  snapshot_changes (y_srv y) s2 (mk_request a k m v) = map st_ch (s_log s2) /\
+  NoDup (map h_cseq (filter (fun c => N.eqb (h_actor c) b) (snapshot_changes (y_srv y) s2 (mk_request a k m v)))).
+Proof. exact c05_snapshot_once. Qed.
+Print Assumptions C05_snapshot_applies_each_change_once.
+
+(* finding P45, repaired: applying every change of a resent pack put the resent change into the
+   snapshot a second time *)
+Theorem C05_resend_into_snapshot_refuted :
+  p_snapshot (snd (fst (push_pull (y_srv p45_y) p45_req))) = true /\
+  snd (push_pull (y_srv p45_y) p45_req) = ENone /\
+  map (fun c => (h_actor c, h_cseq c)) (snapshot_changes_resend (y_srv p45_y) p45_s2 p45_req)
+    = ((1%N, 1) :: (2%N, 1) :: (1%N, 1) :: nil)%Z /\
+  map (fun c => (h_actor c, h_cseq c)) (snapshot_changes (y_srv p45_y) p45_s2 p45_req)
+    = ((1%N, 1) :: (2%N, 1) :: nil)%Z.
+Proof. exact resend_into_snapshot_duplicates. Qed.
+Print Assumptions C05_resend_into_snapshot_refuted.
